@@ -166,6 +166,12 @@ func (c *Ctx) finish(start time.Time, onlyKey string, cmdline string, writeEvide
 			o.Key = fmt.Sprintf("%s#%d", o.Key, n)
 		}
 	}
+	if os.Getenv("VX_LIST") != "" {
+		// debug aid: every obligation with its verdict (used to diff rule instances between two trees)
+		for _, o := range c.Obs {
+			fmt.Printf("OBLIGATION %v %s :: %s\n", o.Status, o.Key, o.Reason)
+		}
+	}
 	nDis, nViol, nUnd, nKnown, nNontriv := 0, 0, 0, 0, 0
 	var lines []string
 	replayDir := filepath.Join(c.verifDir, "evidence", "replays")
